@@ -13,7 +13,7 @@ CONSTANTS
   TimeoutOn = FALSE
   MaxBkClose = 0
   AllowCliClose = FALSE
-  MaxHops = 0
+  MaxHops = 1
   MaxBurst = 3
   CanonKinds = TRUE
   PoolAny = FALSE
